@@ -521,7 +521,9 @@ class Check:
         self.tier = tier
         self.seed = seed
         self.t0 = time.time()
-        self.out = os.path.join(OUT, pid, tier)
+        # a check of another tree than /repo (bin/selftest-binding) gets a work directory of its own: it may run at the
+        # same time as the check of /repo, or as the same check of a third tree
+        self.out = os.path.join(OUT, pid, tier if os.path.realpath(NITRO_SRC) == "/repo" else tier + "_" + srctag())
         if os.path.isdir(self.out):
             shutil.rmtree(self.out, ignore_errors=True)
         os.makedirs(self.out, exist_ok=True)
